@@ -45,7 +45,7 @@ CHECKS.update({
  "C10": ("exhaustive enumeration of DTLS declared lengths x content types x cut points + proptest-generated DTLS records, handshake headers over full 24-bit ranges and datagrams, against reference header decoders and the model encoder",
          "13-byte header fields (epoch / 48-bit sequence split), cap, Incomplete contract with exact Needed, fragment predicate and header fields verbatim, supported bodies, multi-record datagrams.",
          "Quick tier samples the cuts beyond the record end for lengths > 512 (full in thorough).", "4/C10"),
- "C11": ("exhaustive enumeration of every value of 41 enumerated wire fields inside generated well-formed templates (templates vary with the value; RFC-meaningful neighbours), plus a joint sweep of the three record-header fields",
+ "C11": ("exhaustive enumeration of every value of 44 enumerated wire fields inside generated well-formed templates (templates vary with the value; RFC-meaningful neighbours), plus a joint sweep of the three record-header fields",
          "Each field's whole integer domain is written into a well-formed structure and read back from the parsed value, for k template variants.",
          "ServerHello legacy version excluded as in the statement.", "4/C11"),
  "C13": ("proptest-generated DH / EC / signature values with an RFC reference encoder, exhaustive curve-type and named-group sweep, reference decoder for parse_content_and_signature",
@@ -60,7 +60,7 @@ CHECKS.update({
  "C16": ("differential: multi-record parsers vs an explicit loop over the single-record parser on proptest-generated record concatenations with six kinds of endings; alias differential on soup and corrupted structures",
          "Records, remainder position and failure condition must match the loop exactly; the deprecated alias must be identical including errors.",
          "Records compared after conversion to model types.", "4/C16"),
- "C18": ("configuration enumeration (4 feature sets, complete) + differential execution of a proptest-generated corpus under the three buildable configurations; source scan and compile-time probe for the static sub-claims",
+ "C18": ("configuration enumeration (4 feature sets, complete) + differential execution of a proptest-generated corpus under the three buildable configurations; source scan (also of the macro-expanded crate), compile-time Send/Sync probe per feature set and a multi-threaded lookup stress for the static sub-claims",
          "Build status per feature set, compile_error text, byte-identical per-input digests of 30 entry points + registry + state machine + defragmenter across configurations; forbid(unsafe_code) and absence of the unsafe token; Send + Sync of 45 public types by type-checking a probe package.",
          "The static sub-claims are compile-time facts, not decided by generated inputs (stated in DESIGN.md).", "4/C18"),
 })
